@@ -158,7 +158,9 @@ def _needs_relink(
 ) -> bool:
     destination = meta.destination
     is_symlink = meta.is_link
-    is_hardlink = meta.nlink > 1
+    # NOTE: meta of a symlink describes its target, which may itself have
+    # several hard links (e.g. duplicated files already linked to the cache)
+    is_hardlink = not is_symlink and meta.nlink > 1
     is_copy = not is_symlink and not is_hardlink
 
     for link_type in cache.cache_types:
